@@ -5,10 +5,18 @@ import json, os
 
 PROP = "C05"
 CONSTS = []
-THEOREMS = {}   # filled below: the per-component safety theorems proved in the other property files
+THEOREMS = {"SmVerif.Props.C05": ["SmVerif.C05." + n for n in [
+    "c05_safe_iff", "c05_parseVlq_safe", "c05_decLoop_safe", "c05_parse_nonempty", "c05_decode_safe",
+    "c05_decoded_tokens", "c05_decoded_wf_partial", "c05_decoded_wf_needs_size",
+    "c05_lookup_safe", "c05_lookup_safe_any",
+    "c05_serialize_safe", "c05_serialize_rmi_safe", "c05_serialize_sorted", "c05_vlqDiff_total",
+    "c05_reencode_decodes_partial", "c05_rmi_safe"]]}
 TRUSTED = BASE_TRUST + ["bytes.all is an exploration op on the real code only (panic hook + overflow checks, 10 s watchdog, counting allocator); JSON parsing, serde's recursion limit, allocation and wall-clock are outside the Lean model"]
-ASSUMPTIONS = ["serialisation is exercised only while the greatest generated line stays below 100000", "allocation bound: 4096 x input + 8 MiB peak"]
-RULE = ("bytes.all: arbitrary bytes; structure-aware documents with extreme numbers (0, 2^31, 2^32-1, 62-bit VLQ values, negative running sums), wrong types, missing and repeated keys, mismatched array lengths, nested sections, malformed Hermes payloads; byte-level mutations of tests/fixtures/**. "
+ASSUMPTIONS = ["serialisation is exercised only while the greatest generated line stays below 100000", "allocation bound: 4096 x input + 8 MiB peak",
+               "c05_decoded_wf_partial and c05_reencode_decodes_partial carry size bounds (mappings string shorter than 2^32 bytes, at most 2^32 sources and names, i.e. a document below 4 GiB): the model counts lines in an unbounded Nat where the code has `dst_line as u32` (c05_decoded_wf_needs_size is the counterexample without the bound); c05_decoded_tokens is the unconditional part"]
+RULE = ("bytes.all: about 60 % valid structured documents that decode (regular maps with coordinates at 2^31 / 2^32-1 and negative deltas back to 0, wrapping deltas, up to 100001 generated lines, aligned rangeMappings, "
+        "Hermes maps whose function maps parse, index maps with ordered / nested sections and large-but-legal offsets, junk headers) so that every post-decode query, serialisation, rewrite and flatten is driven; "
+        "and the malformed stream: arbitrary bytes; structure-aware documents with extreme numbers (0, 2^31, 2^32-1, 62-bit VLQ values, negative running sums), wrong types, missing and repeated keys, mismatched array lengths, nested sections, malformed Hermes payloads; byte-level mutations of tests/fixtures/**. "
         "non-trivial = the input decodes to a map (all queries were driven) ; distinct = distinct case line")
 EXHAUSTIVE = {"quick": False, "thorough": False}
 LIMIT_MS = 20000
@@ -139,6 +147,249 @@ def rand_index_doc(rng, depth=0):
     return d
 
 
+# ---------------------------------------------------------------- valid documents (they decode; the queries run)
+
+E32 = [0, 1, (1 << 31) - 1, 1 << 31, (1 << 31) + 1, (1 << 32) - 2, (1 << 32) - 1]
+UUIDS = ["00000000-0000-0000-0000-000000000000", "dfb8e43a-f242-3d73-a453-aeb6a777ef75", "DFB8E43AF2423D73A453AEB6A777EF75", "dfb8e43a-f242-3d73-a453-aeb6a777ef75-a"]
+TEXTS = ["function a(){}\nvar é=1;", "", "function é(){}function 𝒳(a){return a}\nvar x=function(){};", "a\r\nb\rc\n", "x" * 300, "function a ( ) {\n  return 1\n}\n"]
+
+
+def rmi_enc(bits):
+    """generator's own writer of a range-mapping line: 6 bits per character, least significant first"""
+    return "".join(B64[sum(b << k for k, b in enumerate(bits[i:i + 6]))] for i in range(0, len(bits), 6))
+
+
+def extreme_doc(rng, nsrc, nn):
+    """valid document whose absolute coordinates sit on the u32 extremes: every field jumps to 2^31 / 2^32-1 and back to 0"""
+    lines = []
+    src = sl = sc = name = 0
+    for _ in range(rng.range(1, 4)):
+        segs = []
+        col = 0
+        for _ in range(rng.range(1, 6)):
+            ncol = rng.choice(E32)
+            c, col = ncol - col, ncol
+            if nsrc == 0 or rng.chance(0.2):
+                segs.append([c])
+                continue
+            ns, nsl, nsc = rng.choice([0, nsrc - 1, rng.below(nsrc)]), rng.choice(E32), rng.choice(E32)
+            f = [c, ns - src, nsl - sl, nsc - sc]
+            src, sl, sc = ns, nsl, nsc
+            if nn and rng.chance(0.5):
+                n2 = rng.choice([0, nn - 1, rng.below(nn)])
+                f.append(n2 - name)
+                name = n2
+            segs.append(f)
+        lines.append(segs)
+    return lines
+
+
+def wrap_doc(rng, nsrc, nn):
+    """accepted by the decoder although the running column / original position leaves u32 (`as u32` wraps): deltas of
+    -1 at 0, 2^32, +-(2^62-1), 13-digit values; source and name indices stay inside their arrays"""
+    W = [-1, -7, 1 << 32, -(1 << 32), (1 << 32) + 1, (1 << 62) - 1, -((1 << 62) - 1), 1 << 61, -(1 << 61), (1 << 63) - 2 >> 1, 5, 0]
+    lines = []
+    src = name = 0
+    for _ in range(rng.range(1, 3)):
+        segs = []
+        for _ in range(rng.range(1, 5)):
+            if nsrc == 0 or rng.chance(0.3):
+                segs.append([rng.choice(W)])
+                continue
+            ns = rng.below(nsrc)
+            f = [rng.choice(W), ns - src, rng.choice(W), rng.choice(W)]
+            src = ns
+            if nn and rng.chance(0.5):
+                n2 = rng.below(nn)
+                f.append(n2 - name)
+                name = n2
+            segs.append(f)
+        lines.append(segs)
+    return lines
+
+
+def spread(rng, lines, last):
+    """push the lines apart with empty ones so that the last line index is `last`"""
+    if not lines:
+        lines = [[[0]]]
+    k = len(lines)
+    gaps = [0] * k
+    room = max(0, last + 1 - k)
+    for _ in range(3):
+        gaps[rng.below(k)] += room // 3
+    gaps[k - 1] += room - sum(gaps)
+    out = []
+    for g, ln in zip(gaps, lines):
+        out += [[]] * g
+        out.append(ln)
+    return out
+
+
+def valid_rmi(rng, lines):
+    """a rangeMappings string aligned with the document: bits for some segments of some lines"""
+    if rng.chance(0.1):
+        return "".join(rng.choice(["A", "B", "g", "/", "+", "9", ";", ";"]) for _ in range(rng.below(10)))
+    parts = []
+    for segs in lines:
+        if not segs or rng.chance(0.4):
+            parts.append("")
+            continue
+        n = len(segs) + rng.choice([0, 0, 0, 1, 7])
+        parts.append(rmi_enc([1 if rng.chance(0.4) else 0 for _ in range(n)]))
+    while parts and parts[-1] == "" and rng.chance(0.8):
+        parts.pop()
+    return ";".join(parts)
+
+
+def fn_map(rng):
+    """a Hermes function map that parses: running column (per line) / name index / line (starts at 1)"""
+    names = ["<global>", "f", "g", "é", "h"][: rng.range(0, 5)]
+    out = []
+    name = 0
+    line = 1
+    for _ in range(rng.small(8)):
+        segs = []
+        col = 0
+        for _ in range(rng.range(0, 4)):
+            ncol = rng.choice([col + rng.below(30), col + rng.below(30), 0, rng.choice(E32)])
+            nname = rng.below(max(len(names), 1)) if rng.chance(0.9) else rng.choice([7, (1 << 32) - 1])
+            nline = rng.choice([line, line + 1, line + rng.below(5), line + 1, 1, 1 << 31, (1 << 32) - 1, (1 << 32) - 2])
+            ar = rng.choice([3, 3, 3, 2, 1, 4])
+            f = [ncol - col, nname - name, nline - line, 0][:ar]
+            col = ncol
+            if ar >= 2:
+                name = nname
+            if ar >= 3:
+                line = nline
+            segs.append("".join(vlq_enc(v) for v in f))
+        out.append(",".join(segs))
+    return {"names": names, "mappings": ";".join(out)}
+
+
+def valid_map(rng, hist, hermes=False, many=0.0):
+    """a regular (or Hermes) map document that decodes"""
+    nsrc = rng.choice([0, 1, 1, 2, 3, 5])
+    nn = rng.choice([0, 1, 2, 4])
+    r = rng.below(20)
+    if r < 9:
+        lines = rand_doc(rng, nsrc, nn, big=rng.chance(0.5))
+        kind = "mixed"
+    elif r < 13:
+        lines = extreme_doc(rng, nsrc, nn)
+        kind = "u32_extremes"
+    elif r < 16:
+        lines = wrap_doc(rng, nsrc, nn)
+        kind = "wrapping_deltas"
+    elif r < 18:
+        lines = rand_doc(rng, nsrc, nn, max_lines=40, max_segs=30, big=rng.chance(0.3))
+        kind = "long_lines"
+    else:
+        lines = spread(rng, rand_doc(rng, nsrc, nn, max_lines=5, max_segs=4), rng.choice([7, 60, 300, 2000]))
+        kind = "sparse_lines"
+    if rng.chance(many):
+        # few tokens: bytes.all drives ~80 linear-time name-resolution queries per token with the whole input as source
+        # text, so a 200 KB document with 40 tokens costs seconds and trips the watchdog on a loaded machine
+        lines = spread(rng, rand_doc(rng, nsrc, nn, max_lines=3, max_segs=2), rng.choice([20000, 99998, 99999, 99999, 100000, 100001]))
+        kind = "many_lines"
+    bump(hist, "valid_" + ("hermes_" if hermes else "") + kind)
+    d = {}
+    if rng.chance(0.95):
+        d["version"] = rng.choice([3, 3, 3, 3, None, 0, 2 ** 32 - 1])
+    d["sources"] = [rng.choice(["a.js", "b.js", None, "", "/x/y.js", "é.js", "http://h/p/a.js", "~/z.js", "b/c.js"]) for _ in range(nsrc)]
+    d["names"] = [rng.choice(["n", "é", "a", "function", 5, None, 1.5, "", "𝒳"]) for _ in range(nn)]
+    d["mappings"] = render(lines)
+    if rng.chance(0.5):
+        d["sourcesContent"] = [rng.choice([None] + TEXTS) for _ in range(rng.choice([nsrc, nsrc, nsrc + 1, max(nsrc - 1, 0)]))]
+    if rng.chance(0.3):
+        d["sourceRoot"] = rng.choice(["", "/", "x", "x/", "http://h/", None, "/a"])
+    if rng.chance(0.3):
+        d["file"] = rng.choice(["f.js", 5, None, {}, "é"])
+    if rng.chance(0.3):
+        d["ignoreList"] = [rng.choice([0, 1, 7, 2 ** 32 - 1]) for _ in range(rng.below(3))]
+    if rng.chance(0.45):
+        d["rangeMappings"] = valid_rmi(rng, lines)
+        bump(hist, "valid_with_range_mappings")
+    if rng.chance(0.2):
+        d[rng.choice(["debug_id", "debugId"])] = rng.choice(UUIDS)
+    if hermes:
+        fs = []
+        for _ in range(rng.choice([nsrc, nsrc, nsrc, nsrc + 1, max(nsrc - 1, 0), 0])):
+            k = rng.below(8)
+            fs.append(None if k == 0 else [] if k == 1 else [fn_map(rng) for _ in range(rng.choice([1, 1, 1, 2]))])
+        d["x_facebook_sources"] = fs
+    if rng.chance(0.2):
+        ks = list(d.items())
+        rng.shuffle(ks)
+        d = dict(ks)
+    return d
+
+
+def valid_index(rng, hist, depth=0):
+    """an index map that decodes: ordered offsets (sometimes listed out of order - the decoder sorts), nested valid maps,
+    offsets up to 2^32-1 (flatten then answers ok or CannotFlatten, never a crash)"""
+    secs = []
+    line = col = 0
+    n = rng.choice([0, 1, 1, 2, 2, 3, 4]) if depth else rng.choice([1, 1, 2, 2, 3, 3, 5])
+    big = rng.chance(0.3)
+    for i in range(n):
+        k = rng.below(6)
+        if i == 0 and k < 3:
+            pass                                    # first section at (0, 0)
+        elif k < 2:
+            col += rng.choice([1, 5, 80])           # same line, further right
+        elif k < 5 or not big:
+            line, col = line + rng.choice([1, 1, 2, 10, 1000]), rng.choice([0, 0, 0, 4, 100])
+        else:
+            line, col = max(line + 1, rng.choice([1 << 31, (1 << 32) - 1000, (1 << 32) - 2])), rng.choice([0, 0, 1 << 31, (1 << 32) - 1, (1 << 32) - 8])
+        if big and rng.chance(0.3):
+            col = rng.choice([(1 << 32) - 1, (1 << 32) - 40, 1 << 31])
+        line, col = min(line, (1 << 32) - 1), min(col, (1 << 32) - 1)
+        sec = {"offset": {"line": line, "column": col}}
+        r = rng.below(12)
+        if r < 7:
+            sec["map"] = valid_map(rng, hist)
+        elif r < 9:
+            sec["map"] = valid_map(rng, hist, hermes=True)
+        elif r < 11 and depth < 3:
+            sec["map"] = valid_index(rng, hist, depth + 1)
+        elif r < 11:
+            sec["map"] = {"version": 3, "sources": [], "names": [], "mappings": ""}
+        else:
+            sec["url"] = rng.choice(["http://x/y.map", "", "y.map"])
+            if rng.chance(0.3):
+                sec["map"] = None
+        secs.append(sec)
+    if rng.chance(0.15):
+        rng.shuffle(secs)
+    if rng.chance(0.1) and secs:
+        secs.append(dict(secs[rng.below(len(secs))]))      # two sections at one offset
+    d = {"version": 3, "sections": secs}
+    if rng.chance(0.3):
+        d["file"] = rng.choice(["x", 7, None])
+    if rng.chance(0.15):
+        d["x_facebook_offsets"] = [rng.choice([0, None, 5, 2 ** 32 - 1]) for _ in range(rng.below(4))]
+        d["x_metro_module_paths"] = ["a", "b/c"][: rng.below(3)]
+    bump(hist, "valid_index_depth_%d" % depth)
+    return d
+
+
+def valid_document(rng, hist, many):
+    r = rng.below(10)
+    if r < 5:
+        d = valid_map(rng, hist, many=many)
+    elif r < 7:
+        d = valid_map(rng, hist, hermes=True, many=many / 2)
+    else:
+        d = valid_index(rng, hist)
+    b = json.dumps(d, ensure_ascii=rng.chance(0.5), separators=rng.choice([(",", ":"), (", ", ": ")])).encode()
+    if rng.chance(0.08):
+        b = rng.choice([b")]}'\n", b")]}'\r\n", b")]}' // not json\n", b")\n", b"}]'\n"]) + b
+        bump(hist, "valid_with_junk_header")
+    if rng.chance(0.05):
+        b = b + rng.choice([b"\n", b" ", b"\r\n\t "])
+    return b
+
+
 def generate(tier, rng, hist):
     out = []
     N = 1500 if tier == "quick" else 120000
@@ -150,6 +401,12 @@ def generate(tier, rng, hist):
             pieces = ["function a(){alert(1)}", "var é=1;", "//# sourceMappingURL=x.map", "//@ sourceMappingURL=data:application/json;base64,e30=", "𝒳", "", " a "]
             b = "".join(rng.choice(pieces) + rng.choice(["\n", "\r", "\r\n", "", "\n\r"]) for _ in range(rng.range(1, 4))).encode()
             bump(hist, "text_like")
+            if rng.chance(0.3):
+                # a minified file whose reference embeds a valid map: drives get_embedded_sourcemap's decoder
+                import base64
+                doc = json.dumps(valid_map(rng, {}, hermes=rng.chance(0.3))).encode()
+                b += rng.choice([b"//# sourceMappingURL=data:application/json;base64,", b"//# sourceMappingURL=data:application/json;charset=utf-8;base64,", b"//@ sourceMappingURL=data:application/json;base64,"]) + base64.b64encode(doc) + rng.choice([b"", b"\n", b"\r\n"])
+                bump(hist, "text_like_embedded_valid_map")
         elif r < 1:
             b = bytes(rng.below(256) for _ in range(rng.small(80)))
             bump(hist, "arbitrary_bytes")
@@ -187,4 +444,11 @@ def generate(tier, rng, hist):
             b = inner.encode()
             bump(hist, "deep_nesting_%d" % k)
         out.append("bytes.all " + hx(b))
+    # the valid stream: documents that decode, so that every post-decode query / serialisation / rewrite / flatten runs
+    NV = 2400 if tier == "quick" else 150000
+    many = 30.0 / NV if tier == "quick" else 400.0 / NV
+    for _ in range(NV):
+        out.append("bytes.all " + hx(valid_document(rng, hist, many)))
+        bump(hist, "valid_doc")
+    rng.shuffle(out)
     return out
